@@ -27,6 +27,7 @@ def step : Handler := fun j => do
             (blockToJson b2).compress == (blockToJson b').compress && noGhostB b' && wfB bg && okBb fields bg noFacts
           | _, _ => false)
        | _ => false)
+    | .dce, some b' => dceSide path b b'
     | _, _ => true
   return Json.mkObj [
     ("side", Json.bool side),
